@@ -303,12 +303,12 @@ class Filler(WidgetDecoration[WrappedWidget]):
     def move_cursor_to_coords(self, size: tuple[int, int] | tuple[int], col: int, row: int) -> bool:
         """Pass to self.original_widget."""
         maxcol, maxrow = self.pack(size, True)
-        if not hasattr(self._original_widget, "move_cursor_to_coords"):
-            return True
-
         top, bottom = self.filler_values(size, True)
         if row < top or row >= maxrow - bottom:
             return False
+
+        if not hasattr(self._original_widget, "move_cursor_to_coords"):
+            return True
 
         if self.height_type == WHSettings.PACK:
             return self._original_widget.move_cursor_to_coords((maxcol,), col, row - top)
